@@ -24,7 +24,7 @@ sys.path.insert(2, os.path.join(HERE, 'fixtures'))
 sys.dont_write_bytecode = True
 
 from vlib.core import (PropertyViolation, HarnessError, Stats, merge_stats, fingerprint, jsonable,  # noqa: E402
-                       canonical, with_budget, StepBudgetExceeded)
+                       canonical, with_budget, StepBudgetExceeded, raised_in_repo)
 
 
 class CaseTimeout(BaseException):
@@ -96,12 +96,27 @@ class Judge:
             signal.setitimer(signal.ITIMER_REAL, 0)
             signal.signal(signal.SIGALRM, old)
 
+    def _run(self, case):
+        """An exception that escapes the property module and was raised inside the code under test is the
+        implementation failing on an input the generators consider legal: a violation ("handled or rejected
+        cleanly, never crashes"), not a harness error.  Exceptions raised by harness code stay harness errors."""
+        try:
+            return self._guarded(case)
+        except (PropertyViolation, CaseTimeout):
+            raise
+        except Exception as exc:
+            if raised_in_repo(exc):
+                raise PropertyViolation('unexpected_exception_inside_desper', {
+                    'exception': repr(exc)[:500],
+                    'where': traceback.format_exception(type(exc), exc, exc.__traceback__)[-3:]}) from None
+            raise
+
     def __call__(self, case, sample=True):
         if self.deadline is not None and time.monotonic() > self.deadline:
             self.budget_hit = True
             return
         try:
-            info = self._guarded(case)
+            info = self._run(case)
         except PropertyViolation as v:
             key = self.matcher.match(case, v)
             if key is None:
@@ -116,7 +131,7 @@ class Judge:
     def once(self, case):
         """Direct execution without booking; returns the violation or None (known findings -> None)."""
         try:
-            self._guarded(case)
+            self._run(case)
         except PropertyViolation as v:
             if self.matcher.match(case, v) is None:
                 return v
